@@ -317,7 +317,7 @@ def rules_used(tree):
 NAME_POOL = ['__future__', '__class__', 'x', 'foo', 'y1', '_', 'é', 'Ünï', 'a_b', 'self', 'ℂ', 'match', 'case', 'type', 'print', 'exec', 'nonloc', 'T', 'aa', 'l']
 NUMBER_POOL = ['09e1', '09j', '007J', '0_1j', '1.5j', '.5j', '1e3j', '1', '0', '23', '0x1f', '0o17', '0b101', '1_000', '1.5', '1.', '.5', '1e5', '1E-5', '1.5e+3', '2j', '1.e5j', '0_0',
                '0B1', '0XF_F', '1_0.0_1']
-STRING_POOL = ["'s'", '"d"', "''", '""', "'''t'''", '"""t\nu"""', "b'b'", 'B"b"', "r's\\d'", "R'r'", "u'u'", "rb'x'", "Rb'x'", "bR'x'",
+STRING_POOL = ["'a\x85b'", "'\x0c'", "'\x1c\x1d'", '"\u2028"', "'\xa0'", "'\ud800'", "'s'", '"d"', "''", '""', "'''t'''", '"""t\nu"""', "b'b'", 'B"b"', "r's\\d'", "R'r'", "u'u'", "rb'x'", "Rb'x'", "bR'x'",
                "'a\\'b'", '"a\\"b"', "'\\n\\x41\\u00e9'", "'\\N{DASH}'", "'é'", "'a\\\nb'", "'#'", "'{x}'"]
 STRING_POOL_IN_F = {"'": ['"d"', '""', 'b"b"', 'r"r"', '"é"'], '"': ["'s'", "''", "b'b'", "r'r'", "'é'"]}
 FSTRING_TEXT = ['a', 'a b', ' ', 'é', '{{', '}}', 'x{{y}}', '\\n', '#', 'a.b', '%s', '->']
